@@ -87,6 +87,12 @@ struct Observed {
 
 /// simulate the schedules of a case; Err = some job exceeded the bound
 fn run_schedules(c: &Case, bound: u64, tua_for_sched: usize, stop_at_busy_window_end: bool) -> Result<Observed, String> {
+    run_schedules_mf(c, bound, tua_for_sched, stop_at_busy_window_end, None)
+}
+
+/// `frames`: per-task cost frames and starting phases; job k of task i then costs at most
+/// frames[i][(phase[i] + k) % len] (zero-cost jobs take no processor time and are left out)
+fn run_schedules_mf(c: &Case, bound: u64, tua_for_sched: usize, stop_at_busy_window_end: bool, frames: Option<(&[Vec<u64>], &[u8])>) -> Result<Observed, String> {
     let ts = &c.tasks;
     let n = ts.len();
     let (pol, pre) = policy_of(c.analysis);
@@ -96,7 +102,31 @@ fn run_schedules(c: &Case, bound: u64, tua_for_sched: usize, stop_at_busy_window
     let mut all = vec![canonical_sched(n)];
     all.extend(c.scheds.iter().cloned());
     for sc in &all {
-        let con = concretise(ts, c.analysis, tua_for_sched, sc, if stop_at_busy_window_end { 6000 } else { span });
+        let mut con = concretise(ts, c.analysis, tua_for_sched, sc, if stop_at_busy_window_end { 6000 } else { span });
+        if let Some((fr, ph)) = frames {
+            let mut cut_i = 0usize;
+            for i in 0..n {
+                let f = &fr[i];
+                let p = ph.get(i).copied().unwrap_or(0) as usize;
+                let mut rel = vec![];
+                let mut exec = vec![];
+                for (k, r) in con.rel[i].iter().enumerate() {
+                    let full = f[(p + k) % f.len()];
+                    let e = if sc.exec_cut.is_empty() || full == 0 {
+                        full
+                    } else {
+                        cut_i += 1;
+                        full - (sc.exec_cut[cut_i % sc.exec_cut.len()] as u64) % full
+                    };
+                    if e > 0 {
+                        rel.push(*r);
+                        exec.push(e);
+                    }
+                }
+                con.rel[i] = rel;
+                con.exec[i] = exec;
+            }
+        }
         let si = SimIn {
             ts,
             rel: &con.rel,
@@ -192,6 +222,130 @@ fn fifo_strategy(tier: Tier) -> BoxedStrategy<Case> {
     case_strategy(tier, vec![Analysis::Fifo], false, 5)
 }
 
+// --- multiframe cost models (the RBF-based analyses accept any job-cost model) -----------
+
+#[derive(Clone, Debug, Serialize, Deserialize)]
+pub struct MfCase {
+    pub base: Case,
+    /// per task: further frames (each capped by the task's WCET, which is always frame 0; sorted
+    /// non-increasingly so that the first n frames bound any n consecutive jobs)
+    pub extra_frames: Vec<Vec<u64>>,
+    /// per task: frame index of its first job in the schedule
+    pub phase: Vec<u8>,
+}
+
+fn mf_strategy(tier: Tier, analyses: Vec<Analysis>) -> BoxedStrategy<MfCase> {
+    (
+        case_strategy(tier, analyses, false, 5),
+        proptest::collection::vec(proptest::collection::vec(prop_oneof![3 => Just(0u64), 2 => 1u64..=3, 3 => 1u64..=8], 0..4), 5),
+        proptest::collection::vec(0u8..4, 5),
+    )
+        .prop_map(|(base, extra_frames, phase)| MfCase { base, extra_frames, phase })
+        .boxed()
+}
+fn mf_fp_strategy(tier: Tier) -> BoxedStrategy<MfCase> {
+    mf_strategy(tier, vec![Analysis::FpP, Analysis::FpFl])
+}
+fn mf_edf_strategy(tier: Tier) -> BoxedStrategy<MfCase> {
+    mf_strategy(tier, vec![Analysis::EdfP, Analysis::EdfFl])
+}
+fn mf_fifo_strategy(tier: Tier) -> BoxedStrategy<MfCase> {
+    mf_strategy(tier, vec![Analysis::Fifo])
+}
+
+fn check_mf(c: &MfCase) -> CheckResult {
+    use crate::supply_ref::{d, s};
+    use response_time_analysis::demand::{self, RBF};
+    use response_time_analysis::wcet::Multiframe;
+    use response_time_analysis::{edf, fifo, fixed_priority as fp};
+    let mut out = Outcome::default();
+    let ts = &c.base.tasks;
+    let n = ts.len();
+    let tua = c.base.tua;
+    let an = c.base.analysis;
+    let frames: Vec<Vec<u64>> = (0..n)
+        .map(|i| {
+            let mut rest: Vec<u64> = c.extra_frames.get(i).cloned().unwrap_or_default().iter().map(|x| (*x).min(ts[i].wcet)).collect();
+            rest.sort_unstable_by(|a, b| b.cmp(a));
+            let mut f = vec![ts[i].wcet];
+            f.extend(rest);
+            f
+        })
+        .collect();
+    let limit = d(match c.base.limit {
+        Limit::Large => LARGE_LIMIT,
+        Limit::Absolute(x) => x,
+    });
+    let r = guard(|| {
+        let rbfs: Vec<RBF<Ab, Multiframe>> = (0..n).map(|i| RBF::new(ts[i].arr.build(), Multiframe::new(frames[i].iter().map(|x| s(*x)).collect()))).collect();
+        let t = &ts[tua];
+        match an {
+            Analysis::FpP | Analysis::FpFl => {
+                let hep: Vec<&RBF<Ab, Multiframe>> = (0..n).filter(|i| *i != tua && ts[*i].prio <= t.prio).map(|i| &rbfs[i]).collect();
+                if an == Analysis::FpP {
+                    fp::fully_preemptive::dedicated_uniproc_rta(&rbfs[tua], &hep[..], limit)
+                } else {
+                    fp::floating_nonpreemptive::dedicated_uniproc_rta(
+                        &fp::floating_nonpreemptive::TaskUnderAnalysis { rbf: &rbfs[tua], blocking_bound: s(fp_blocking(ts, tua, an)) },
+                        &hep[..],
+                        limit,
+                    )
+                }
+            }
+            Analysis::EdfP => {
+                let others: Vec<edf::fully_preemptive::Task<RBF<Ab, Multiframe>>> =
+                    (0..n).filter(|i| *i != tua).map(|i| edf::fully_preemptive::Task { rbf: &rbfs[i], deadline: d(ts[i].deadline) }).collect();
+                edf::fully_preemptive::dedicated_uniproc_rta(&edf::fully_preemptive::Task { rbf: &rbfs[tua], deadline: d(t.deadline) }, &others[..], limit)
+            }
+            Analysis::EdfFl => {
+                let others: Vec<edf::floating_nonpreemptive::InterferingTask<RBF<Ab, Multiframe>>> = (0..n)
+                    .filter(|i| *i != tua)
+                    .map(|i| edf::floating_nonpreemptive::InterferingTask { rbf: &rbfs[i], deadline: d(ts[i].deadline), max_np_segment: s(ts[i].max_np) })
+                    .collect();
+                edf::floating_nonpreemptive::dedicated_uniproc_rta(
+                    &edf::floating_nonpreemptive::TaskUnderAnalysis { rbf: &rbfs[tua], deadline: d(t.deadline) },
+                    &others[..],
+                    limit,
+                )
+            }
+            Analysis::Fifo => match c.base.wrap {
+                Wrap::Plain => fifo::dedicated_uniproc_rta(&demand::Slice::of(&rbfs[..]), limit),
+                _ => fifo::dedicated_uniproc_rta(&demand::Aggregate::new(rbfs.clone()), limit),
+            },
+            _ => unreachable!("only the analyses that take request-bound functions"),
+        }
+    });
+    let bound = match r {
+        Ok(r) => match Res::from(r) {
+            Res::Ok(b) => b,
+            _ => {
+                out.label("analysis-err");
+                return Ok(out);
+            }
+        },
+        Err(_) => {
+            out.label("analysis-panicked(skipped)");
+            return Ok(out);
+        }
+    };
+    if ts[tua].arr.never_arrives() && an != Analysis::Fifo {
+        out.label("tua-never-arrives");
+        return Ok(out);
+    }
+    let obs = run_schedules_mf(&c.base, bound, tua, false, Some((&frames[..], &c.phase[..])))
+        .map_err(|e| format!("{} [multiframe costs {:?}, phases {:?}]", e, frames, c.phase))?;
+    out.inner = obs.sims;
+    let varied = frames.iter().any(|f| f.iter().any(|x| *x != f[0]));
+    out.nontrivial = n >= 2 && obs.interfered && varied;
+    out.label_if(obs.worst == bound, "bound-attained");
+    out.label_if(frames.iter().any(|f| f.contains(&0)), "zero-cost-frames");
+    out.label_if(frames[tua].iter().any(|x| *x != frames[tua][0]), "tua-varied-costs");
+    out.label(an.name());
+    Ok(out)
+}
+
+const MF_RULE: &str = " Sub-check multiframe-costs: the analyses of this family that take request-bound functions rather than a scalar WCET are run on RBFs built from wcet::Multiframe (frame 0 = the task's WCET, up to 3 further frames <= WCET in non-increasing order, zero-cost frames included), and the simulated jobs cost at most their frame (generated starting phase per task; zero-cost jobs take no processor time); oracle as above. Non-trivial there: additionally some task has two different frame costs.";
+
 const SIM_ASSUMPTIONS: [&str; 4] = [
     "discrete time: a job released at t may run in slot t; response = completion - release; jobs of one task run in release order",
     "release sequences are admissible by construction of the models' documented semantics (arr.rs), cross-validated against number_arrivals by C10",
@@ -202,9 +356,9 @@ const SIM_ASSUMPTIONS: [&str; 4] = [
 pub fn def_c01() -> PropertyDef {
     PropertyDef {
         id: "C01",
-        rule: "generated: task sets of 1-4 (thorough: 5) tasks (Periodic, Sporadic with J up to 4T, extrapolating bursty delta-min curves incl. plateaus, jittered / propagated / summed models, rarely Never; T <= 30/40, WCET <= 8, utilisation steered to 0.3-1.05, equal priorities, segment vectors, floating region lengths), the analysed task, one of the four FP analyses, limit (3000 or small absolute), RBF wrapping, and per case the canonical adversary (one lower-priority blocker entering its longest non-preemptive segment at t0-1, everything else densest from t0, all WCET, ties against the analysed task) plus 5-7 generated schedules (release slack / jitter decisions, phases, execution-time cuts, tie-break vectors, non-preemptive-region decisions, blocker on/off). Oracle: independent slot-by-slot scheduler simulation; every job of the analysed task (completed, or unfinished at the horizon with its age) must respond within Ok(R). Non-trivial: Ok result, >= 2 tasks and some job of the analysed task waited (response > own execution time); labels report how often the bound was attained exactly. Distinct by case JSON.".into(),
+        rule: format!("{}{}", "generated: task sets of 1-4 (thorough: 5) tasks (Periodic, Sporadic with J up to 4T, extrapolating bursty delta-min curves incl. plateaus, jittered / propagated / summed models, rarely Never; T <= 30/40, WCET <= 8, utilisation steered to 0.3-1.05, equal priorities, segment vectors, floating region lengths), the analysed task, one of the four FP analyses, limit (3000 or small absolute), RBF wrapping, and per case the canonical adversary (one lower-priority blocker entering its longest non-preemptive segment at t0-1, everything else densest from t0, all WCET, ties against the analysed task) plus 5-7 generated schedules (release slack / jitter decisions, phases, execution-time cuts, tie-break vectors, non-preemptive-region decisions, blocker on/off). Oracle: independent slot-by-slot scheduler simulation; every job of the analysed task (completed, or unfinished at the horizon with its age) must respond within Ok(R). Non-trivial: Ok result, >= 2 tasks and some job of the analysed task waited (response > own execution time); labels report how often the bound was attained exactly. Distinct by case JSON.", MF_RULE),
         assumptions: SIM_ASSUMPTIONS.iter().map(|s| s.to_string()).collect(),
-        subchecks: vec![subcheck("simulate", (3000, 60_000), fp_strategy, check_safe)],
+        subchecks: vec![subcheck("simulate", (3000, 60_000), fp_strategy, check_safe), subcheck("multiframe-costs", (800, 30_000), mf_fp_strategy, check_mf)],
         extra: None,
     }
 }
@@ -212,9 +366,9 @@ pub fn def_c01() -> PropertyDef {
 pub fn def_c02() -> PropertyDef {
     PropertyDef {
         id: "C02",
-        rule: "as C01 with the four EDF analyses: relative deadlines 1..3T (also larger than the period), EDF simulator with generated tie-break vectors (incl. 'analysed job always last'), per-task phases so that other tasks' deadlines line up with offsets A > 0 of the analysed task, a later-deadline blocker entering its longest non-preemptive segment one tick before t0; 6-8 generated schedules plus the canonical adversary per case. Oracle and non-triviality as C01.".into(),
+        rule: format!("{}{}", "as C01 with the four EDF analyses: relative deadlines 1..3T (also larger than the period), EDF simulator with generated tie-break vectors (incl. 'analysed job always last'), per-task phases so that other tasks' deadlines line up with offsets A > 0 of the analysed task, a later-deadline blocker entering its longest non-preemptive segment one tick before t0; 6-8 generated schedules plus the canonical adversary per case. Oracle and non-triviality as C01.", MF_RULE),
         assumptions: SIM_ASSUMPTIONS.iter().map(|s| s.to_string()).collect(),
-        subchecks: vec![subcheck("simulate", (2500, 60_000), edf_strategy, check_safe)],
+        subchecks: vec![subcheck("simulate", (2500, 60_000), edf_strategy, check_safe), subcheck("multiframe-costs", (600, 30_000), mf_edf_strategy, check_mf)],
         extra: None,
     }
 }
@@ -222,9 +376,9 @@ pub fn def_c02() -> PropertyDef {
 pub fn def_c03() -> PropertyDef {
     PropertyDef {
         id: "C03",
-        rule: "task sets as C01 (no priorities), FIFO simulator (non-preemptive, earliest release first, generated tie-breaks among simultaneous releases); the bound returned for the whole set must hold for EVERY job of EVERY task in the canonical dense schedule and 5-7 generated schedules per case. Non-trivial: Ok, >= 2 tasks, some job waited.".into(),
+        rule: format!("{}{}", "task sets as C01 (no priorities), FIFO simulator (non-preemptive, earliest release first, generated tie-breaks among simultaneous releases); the bound returned for the whole set must hold for EVERY job of EVERY task in the canonical dense schedule and 5-7 generated schedules per case. Non-trivial: Ok, >= 2 tasks, some job waited.", MF_RULE),
         assumptions: SIM_ASSUMPTIONS.iter().map(|s| s.to_string()).collect(),
-        subchecks: vec![subcheck("simulate", (3000, 60_000), fifo_strategy, check_safe)],
+        subchecks: vec![subcheck("simulate", (3000, 60_000), fifo_strategy, check_safe), subcheck("multiframe-costs", (1500, 30_000), mf_fifo_strategy, check_mf)],
         extra: None,
     }
 }
